@@ -169,11 +169,10 @@ Proof.
   - rewrite Hcg. unfold cost_total. destruct (Qnum (aq a) <? 0)%Z; cbn [amt_neg with_keep acomm]; exact Hct.
 Qed.
 
-(* print fails exactly when a per-unit cost sits on a zero amount (finding F28) *)
-Lemma per_unit_on_zero_fails cp g a : aq a == 0 -> amt_div cp g a = Err EDivZero.
-Proof.
-  intros H. unfold amt_div. apply is_realzero_spec in H. rewrite H. reflexivity.
-Qed.
+(* the quotient print computes for a per-unit cost exists whenever the amount is not exactly zero
+   (print.cc tests is_realzero before dividing and writes the total cost otherwise) *)
+Lemma per_unit_quotient_total cp g a : is_realzero a = false -> exists q, amt_div cp g a = Ok q.
+Proof. intros H. unfold amt_div. rewrite H. eexists; reflexivity. Qed.
 
 End Costs.
 
@@ -372,14 +371,16 @@ Definition wf_written (cp : comm -> Z) (x : xpost) : Prop :=
   exists a, p_amt p = Some a /\ printable cp a /\ is_zero cp a = false /\ cost_ok cp a p e.
 
 (* one line: print shows the written amount and cost exactly; the reader rebuilds the posting *)
+Lemma elides_other_count count index first x : count <> 2%nat -> elides count index first x = false.
+Proof. intros H. unfold elides. replace (Nat.eqb count 2) with false by (symmetry; apply Nat.eqb_neq; exact H). reflexivity. Qed.
+
 Lemma decide_post_written cp xs count index first x :
-  count <> 2%nat -> wf_written cp x ->
+  elides count index first x = false -> wf_written cp x ->
   exists ln, decide_post cp xs count index first x = Ok (Some ln) /\
              psim (fst (reread_line cp xs ln)) (fst x) /\ p_lotprice (fst (reread_line cp xs ln)) = None.
 Proof.
   intros Hc Hw. destruct x as [p e]. destruct Hw as [H1 [H2 [H3 [H4 [a [Ha [Hpa [Hnz0 Hco]]]]]]]].
-  unfold decide_post. rewrite H2, H1, Ha.
-  replace (Nat.eqb count 2) with false by (symmetry; apply Nat.eqb_neq; exact Hc). cbn [andb].
+  unfold decide_post. rewrite H2, H1, Ha, Hc.
   assert (Hrv : read_back_value cp a = read_back cp a) by (unfold read_back_value; rewrite Hnz0; reflexivity).
   destruct (read_back_exact cp a Hpa) as [Hrb [Hrc _]].
   destruct Hco as [[Hc1 Hg1] | [[u [Hnz [Hu [Hcu [Hfull [Hc2 [Hg2 Hpq]]]]]]] | [t [Ht [Hfull [Hc3 [Hg3 Hpt]]]]]]].
@@ -389,6 +390,8 @@ Proof.
     rewrite Ha, Hc1, H4, Hrv. repeat split; cbn [osim]; try exact I; assumption.
   - (* @ u *)
     rewrite Hg2, Hc2, H3, Hfull. cbn [orb].
+    replace (is_realzero a) with false
+      by (symmetry; destruct (is_realzero a) eqn:Hr; [apply is_realzero_spec in Hr; contradiction | reflexivity]).
     destruct (per_unit_cost_roundtrip cp u a Hnz Hu Hcu) as [q [Hq Hrt]]. cbv zeta in Hrt.
     rewrite Hq. cbn [bind]. destruct (Hrt (Hpq q Hq)) as [Hu1 [Hu2 _]].
     eexists. split; [reflexivity|].
@@ -414,7 +417,7 @@ Proof.
   intros Hc. induction l as [|x l IH]; intros index Hw.
   - exists []. cbn. split; [reflexivity|]. split; [constructor | intros p []].
   - inversion Hw as [|? ? Hx Hl]; subst.
-    destruct (decide_post_written cp xs count index first x Hc Hx) as [ln [Hd [Hs Hlot]]].
+    destruct (decide_post_written cp xs count index first x (elides_other_count _ _ _ _ Hc) Hx) as [ln [Hd [Hs Hlot]]].
     destruct (IH (S index) Hl) as [ls [Hds [Hss Hlots]]].
     exists (ln :: ls). cbn [decide_from]. rewrite Hd, Hds. cbn [bind]. split; [reflexivity|].
     cbn [reread map]. split; [constructor; assumption|].
@@ -455,19 +458,154 @@ Proof.
   - intros c. rewrite (bsum_psim c _ _ Hs). apply Hz.
 Qed.
 
-(* what is printed does not depend on finalize having run: print of the re-read text decides the
-   same way about marks (state survives under an uncleared transaction) *)
-Lemma mark_roundtrip_uncleared e : read_state SUncleared (mark_of SUncleared e) = e_state e.
-Proof. unfold mark_of, read_state. destruct (e_state e); reflexivity. Qed.
-
-Lemma mark_roundtrip_same xs e : e_state e = xs -> read_state xs (mark_of xs e) = e_state e.
-Proof. intros <-. unfold mark_of, read_state. destruct (e_state e); reflexivity. Qed.
-
-(* finding F27: under a cleared transaction a pending posting comes back cleared *)
-Lemma mark_lost_refuted : exists xs e, read_state xs (mark_of xs e) <> e_state e.
-Proof. exists SCleared, (no_extra SPending). discriminate. Qed.
+(* ---- states.  parse_post leaves a posting UNCLEARED only under an uncleared transaction (a
+   posting without its own mark inherits the transaction's state); under that invariant the mark
+   print writes brings the state back *)
+Lemma mark_roundtrip xs e :
+  (e_state e = SUncleared -> xs = SUncleared) -> read_state xs (mark_of xs e) = e_state e.
+Proof.
+  unfold mark_of, read_state. destruct xs, (e_state e); cbn [pstate_eqb]; intros H; try reflexivity;
+    specialize (H eq_refl); discriminate.
+Qed.
 
 End Reread.
+
+(* ================================================================== print never fails; two postings *)
+Section Pair.
+Local Open Scope Q_scope.
+
+Lemma decide_post_total cp xs count index first x : exists o, decide_post cp xs count index first x = Ok o.
+Proof.
+  destruct x as [p e]. unfold decide_post. destruct (p_generated p); [eexists; reflexivity|].
+  destruct (p_calculated p); [eexists; reflexivity|]. destruct (p_amt p) as [a|]; [|eexists; reflexivity].
+  destruct (e_given e) as [g|]; cbn [bind orb]; [|eexists; reflexivity].
+  destruct (p_cost_calculated p); cbn [bind]; [eexists; reflexivity|].
+  destruct (e_in_full e); cbn [bind]; [eexists; reflexivity|].
+  destruct (is_realzero a) eqn:Hz; cbn [bind]; [eexists; reflexivity|].
+  destruct (per_unit_quotient_total cp g a Hz) as [q ->]. cbn [bind]. eexists; reflexivity.
+Qed.
+
+Lemma decide_from_total cp xs count first : forall l index, exists ls, decide_from cp xs count first index l = Ok ls.
+Proof.
+  induction l as [|x l IH]; intros index; cbn [decide_from]; [eexists; reflexivity|].
+  destruct (decide_post_total cp xs count index first x) as [o ->]. destruct (IH (S index)) as [r ->].
+  cbn [bind]. eexists; reflexivity.
+Qed.
+
+(* print produces its lines for every transaction: no amount, cost or flag combination makes it fail *)
+Theorem decide_total cp xs l : exists ls, decide cp xs l = Ok ls.
+Proof. unfold decide. destruct l as [|x l]; [eexists; reflexivity|]. apply decide_from_total. Qed.
+
+Lemma reread_accepts ord cp rs ps0 :
+  Forall2 psim rs ps0 -> (forall p, In p rs -> p_lotprice p = None) -> wf_costs ps0 -> ps0 <> [] ->
+  all_have_amounts ps0 -> (forall c, bsum ps0 c == 0) -> finalize ord cp None rs = Ok (Accepted rs).
+Proof.
+  intros Hs Hlot Hwc Hne Ha Hz. apply exact_balance_accepted2.
+  - apply (wf_costs_psim _ _ Hs Hlot Hwc).
+  - intros E. rewrite E in Hs. inversion Hs. subst. contradiction.
+  - apply (all_have_amounts_psim _ _ Hs Ha).
+  - intros c. rewrite (bsum_psim c _ _ Hs). apply Hz.
+Qed.
+
+(* print leaves an amount out only when both postings must balance (print.cc:231-232) *)
+Lemma elides_must_balance count index first x :
+  elides count index first x = true ->
+  count = 2%nat /\ index = 2%nat /\ must_balance (fst x) = true /\ must_balance (fst first) = true /\
+  simple_amount x = true /\ simple_amount first = true /\ amt_comm (fst first) = amt_comm (fst x).
+Proof.
+  unfold elides. intros E.
+  apply andb_true_iff in E as [E H7]. apply andb_true_iff in E as [E H6]. apply andb_true_iff in E as [E H5].
+  apply andb_true_iff in E as [E H4]. apply andb_true_iff in E as [E H3]. apply andb_true_iff in E as [H1 H2].
+  apply Nat.eqb_eq in H1, H2. apply comm_eqb_eq in H7. repeat split; assumption.
+Qed.
+
+Lemma must_balance_kind p : must_balance p = true -> p_kind p <> PVirtual.
+Proof. unfold must_balance. destruct (p_kind p); [discriminate | discriminate | discriminate]. Qed.
+
+(* a simple amount on a posting as the parser leaves it: no cost at all, no assignment *)
+Lemma simple_written cp p e :
+  wf_written cp (p, e) -> simple_amount (p, e) = true -> p_cost p = None /\ e_given e = None /\ e_assigned e = None.
+Proof.
+  intros [H1 [H2 [H3 [H4 [a [Ha [_ [_ Hco]]]]]]]] Hs. unfold simple_amount in Hs. rewrite H1, Ha, H3 in Hs. cbn [negb andb] in Hs.
+  destruct (e_assigned e); [discriminate|]. destruct (p_cost p) as [k|] eqn:Hk; [discriminate|].
+  split; [reflexivity|]. split; [|reflexivity].
+  destruct Hco as [[_ Hg] | [[u [_ [_ [_ [_ [Hc _]]]]]] | [t [_ [_ [Hc _]]]]]]; [exact Hg | congruence | congruence].
+Qed.
+
+(* two postings, all amounts written, exactly balanced: whether or not print leaves the second
+   amount out, the printed text is accepted and gives the same postings.  The printer itself checks
+   that both postings must balance before eliding (print.cc:231-232), so nothing is assumed about
+   their kinds *)
+Theorem print_reread_pair ord cp xs x1 x2 :
+  wf_written cp x1 -> wf_written cp x2 -> wf_costs [fst x1; fst x2] ->
+  (forall c, bsum [fst x1; fst x2] c == 0) ->
+  exists ps'', print_reread ord cp xs [x1; x2] = Ok (Accepted ps'') /\ Forall2 psim ps'' [fst x1; fst x2].
+Proof.
+  intros Hw1 Hw2 Hwc Hz. unfold print_reread, decide. cbn [length decide_from].
+  assert (He1 : elides 2 1 x1 x1 = false) by reflexivity.
+  destruct (elides 2 2 x1 x2) eqn:E.
+  - (* the second amount is left out *)
+    destruct x1 as [p1 e1], x2 as [p2 e2]. unfold elides in E. cbn [Nat.eqb andb fst] in E.
+    apply andb_true_iff in E as [E Hcm]. apply andb_true_iff in E as [E Hs1]. apply andb_true_iff in E as [E Hs2].
+    apply andb_true_iff in E as [Hm2 Hm1].
+    destruct (simple_written cp p1 e1 Hw1 Hs1) as [Hc1 [Hg1 Hasg1]].
+    destruct (simple_written cp p2 e2 Hw2 Hs2) as [Hc2 [Hg2 Hasg2]].
+    pose proof Hw1 as [F1 [F2 [F3 [F4 [a1 [Ha1 [Hp1 [Hnz1 _]]]]]]]].
+    pose proof Hw2 as [G1 [G2 [G3 [G4 [a2 [Ha2 [Hp2 [Hnz2 _]]]]]]]].
+    assert (E2 : elides 2 2 (p1, e1) (p2, e2) = true).
+    { unfold elides. cbn [Nat.eqb andb fst]. rewrite Hm2, Hm1, Hs2, Hs1, Hcm. reflexivity. }
+    unfold decide_post. rewrite F2, F1, Ha1, He1, Hg1, Hasg1, F4. rewrite G2, G1, Ha2, E2, Hg2, Hasg2. cbn [bind].
+    unfold reread, reread_line. cbn [map fst l_cost l_amt l_acct l_kind l_lot].
+    assert (Hrv : read_back_value cp a1 = read_back cp a1) by (unfold read_back_value; rewrite Hnz1; reflexivity).
+    destruct (read_back_exact cp a1 Hp1) as [Hrb [Hrc _]].
+    change (mkPost (p_acct p1) (p_kind p1) (Some (read_back_value cp a1)) None None false false false)
+      with (mkp (p_acct p1) (p_kind p1) (Some (read_back_value cp a1))).
+    change (mkPost (p_acct p2) (p_kind p2) None None None false false false) with (mkp (p_acct p2) (p_kind p2) None).
+    rewrite (elided_second_is_negation ord cp _ _ _ _ _ (must_balance_kind p1 Hm1) (must_balance_kind p2 Hm2)).
+    eexists. split; [reflexivity|].
+    (* exact balance: a2 == - a1 in their common commodity *)
+    assert (Hcomm : acomm a1 = acomm a2).
+    { unfold amt_comm in Hcm. rewrite Ha1, Ha2 in Hcm. apply comm_eqb_eq in Hcm. exact Hcm. }
+    assert (Hsum : aq a1 + aq a2 == 0).
+    { specialize (Hz (acomm a1)). cbn [bsum fst] in Hz. rewrite Hm1, Hm2 in Hz. unfold balancing_amount in Hz.
+      rewrite Hc1, Hc2, Ha1, Ha2 in Hz. unfold at_comm in Hz. rewrite <- Hcomm, comm_eqb_refl in Hz. lra. }
+    constructor; [|constructor; [|constructor]]; unfold psim; cbn [p_acct p_kind p_amt p_cost mkp fst].
+    + rewrite Ha1, Hc1, Hrv. repeat split; cbn [osim]; try exact I; assumption.
+    + rewrite Ha2, Hc2, Hrv. repeat split; cbn [osim]; try exact I.
+      * rewrite amt_neg_exact. cbn [unkeep aq]. rewrite Hrb. lra.
+      * cbn [amt_neg unkeep acomm]. rewrite Hrc. exact Hcomm.
+  - (* both amounts are printed *)
+    destruct (decide_post_written cp xs 2 1 x1 x1 He1 Hw1) as [ln1 [Hd1 [Hs1 Hl1]]].
+    destruct (decide_post_written cp xs 2 2 x1 x2 E Hw2) as [ln2 [Hd2 [Hs2 Hl2]]].
+    rewrite Hd1, Hd2. cbn [bind reread map].
+    assert (Hs : Forall2 psim [fst (reread_line cp xs ln1); fst (reread_line cp xs ln2)] [fst x1; fst x2])
+      by (constructor; [exact Hs1 | constructor; [exact Hs2 | constructor]]).
+    eexists. split; [|exact Hs].
+    apply (reread_accepts ord cp _ [fst x1; fst x2] Hs).
+    + intros p [<-|[<-|[]]]; assumption.
+    + exact Hwc.
+    + discriminate.
+    + apply (written_all_have_amounts cp [x1; x2]). constructor; [exact Hw1 | constructor; [exact Hw2 | constructor]].
+    + exact Hz.
+Qed.
+
+(* all lengths together *)
+Theorem print_reread_equiv_all ord cp xs (l : list xpost) :
+  l <> [] -> Forall (wf_written cp) l -> wf_costs (map fst l) -> (forall c, bsum (map fst l) c == 0) ->
+  finalize ord cp None (map fst l) = Ok (Accepted (map fst l)) /\
+  exists ps'', print_reread ord cp xs (attach (map fst l) (map snd l)) = Ok (Accepted ps'') /\
+               Forall2 psim ps'' (map fst l).
+Proof.
+  intros Hne Hw Hwc Hz. destruct (Nat.eq_dec (length l) 2) as [H2|H2].
+  - split.
+    + apply exact_balance_accepted2; try assumption; [destruct l; [contradiction | discriminate] | apply (written_all_have_amounts cp l Hw)].
+    + rewrite attach_map. destruct l as [|x1 [|x2 [|x3 l]]]; try discriminate.
+      inversion Hw as [|? ? Hw1 Hw']; subst. inversion Hw' as [|? ? Hw2 _]; subst.
+      apply (print_reread_pair ord cp xs x1 x2 Hw1 Hw2 Hwc Hz).
+  - apply print_reread_equiv; assumption.
+Qed.
+
+End Pair.
 
 (* ================================================================== equity *)
 Section Equity.
@@ -662,7 +800,7 @@ Definition wf_plain (cp : comm -> Z) (x : xpost) : Prop :=
 
 Lemma mark_idem xs e v1 v2 v3 v4 :
   mark_of xs (mkExtra (read_state xs (mark_of xs e)) v1 v2 v3 v4) = mark_of xs e.
-Proof. unfold mark_of, read_state. destruct xs; cbn [e_state]; destruct (e_state e); reflexivity. Qed.
+Proof. unfold mark_of, read_state. cbn [e_state]. destruct xs, (e_state e); reflexivity. Qed.
 
 Lemma decide_post_idem cp xs count index f f' x :
   count <> 2%nat -> wf_plain cp x ->
@@ -671,12 +809,11 @@ Lemma decide_post_idem cp xs count index f f' x :
 Proof.
   intros Hc Hw. destruct x as [p e].
   destruct Hw as [H1 [H2 [H3 [H4 [H5 [a [c [Ha [Hac [Hk [Hcp [Hz Hz']]]]]]]]]]]].
-  assert (Hcount : Nat.eqb count 2 = false) by (apply Nat.eqb_neq; exact Hc).
-  unfold decide_post at 1. rewrite H2, H1, Ha, Hcount, H4, H5. cbn [andb bind].
+  unfold decide_post at 1. rewrite H2, H1, Ha, (elides_other_count _ _ _ _ Hc), H4, H5. cbn [bind].
   eexists. split; [reflexivity|].
   unfold reread_line. cbn [l_cost l_amt l_acct l_kind l_lot l_mark l_assigned].
   unfold decide_post. cbn [p_generated p_calculated p_amt p_acct p_kind p_lotprice e_given e_assigned].
-  rewrite Hcount. cbn [andb bind]. rewrite mark_idem.
+  rewrite (elides_other_count _ _ _ _ Hc). cbn [bind]. rewrite mark_idem.
   unfold read_back_value. rewrite Hz, Hz'. rewrite (read_back_idem cp a c Hac Hk Hcp). reflexivity.
 Qed.
 
